@@ -22,6 +22,9 @@ type SimParams struct {
 	PQuantum   float64 `json:"p_quantum,omitempty"`
 	PPerm      float64 `json:"p_perm,omitempty"`
 	POther     float64 `json:"p_other,omitempty"`
+	// PCTDepth > 0: the schedule comes from priority-based search of that depth over PCTHorizon decisions
+	PCTDepth   int `json:"pct_depth,omitempty"`
+	PCTHorizon int `json:"pct_horizon,omitempty"`
 }
 
 // RunSpec identifies one simulated run completely: replaying it is a pure
@@ -135,6 +138,17 @@ func simSource(spec RunSpec) simrt.Source {
 		return &simrt.ReplaySource{Vals: spec.Choices.Dense()}
 	}
 	po := spec.Sim.POther
+	if spec.Sim.PCTDepth > 0 {
+		h := spec.Sim.PCTHorizon
+		if h <= 0 {
+			h = 200
+		}
+		return simrt.NewPCT(spec.Seed, spec.Sim.PCTDepth, h, simrt.Strategy{
+			Name:    "pct",
+			P:       map[string]float64{"quantum": spec.Sim.PQuantum, "perm": spec.Sim.PPerm},
+			Default: po,
+		})
+	}
 	return simrt.NewSearch(spec.Seed, simrt.Strategy{
 		Name:    "walk",
 		P:       map[string]float64{"sched": spec.Sim.PSched, "quantum": spec.Sim.PQuantum, "perm": spec.Sim.PPerm},
